@@ -56,7 +56,8 @@ def run(prop, tier, verdict):
     exhaustive = tier == 'thorough'
     if not exhaustive:
         rnd = random.Random(seedv)
-        scen = rnd.sample(scen, 3500)
+        late = [s for s in scen if s['cfg'].get('wret') == 'late']     # few: always replayed
+        scen = rnd.sample([s for s in scen if s['cfg'].get('wret') != 'late'], 3500) + late
     for i, s in enumerate(scen):
         s['id'] = 'd%d' % i
     scfile = os.path.join(wd, 'scen.ndjson')
